@@ -194,6 +194,35 @@ def _replay_overlap(fn, kindA, kindB, nA, nB, with_missing):
     return replay
 
 
+def _probe_large_counts():
+    """closed forms at magnitudes where fixed-width integer arithmetic wraps (NumPy int64 elements): f1 around 10^5"""
+    import math
+    import numpy as np
+    from fractions import Fraction as F
+    from pyrepseq import stats
+    bad = []
+    for counts in ([60000, 1, 3], [60000, 25000, 7000, 1500], [250000, 3], [90000, 40000], [3000000, 2, 1], [5, 2, 1], [300, 1, 3], [200, 150]):
+        f1, f2 = counts[0], counts[1]
+        sobs = sum(counts)
+        r = F(f1, f2)
+        want = {"chao1": sobs + F(f1 * f1, 2 * f2), "var_chao1": f2 * (r * r / 2 + r ** 3 + r ** 4 / 4)}
+        m = 7
+        want2 = {"chao2": sobs + F(f1 * f1, 2 * f2), "var_chao2": f2 * (r * r / 2 + r ** 3 + r ** 4 / 4)}
+        kinds = [("list", list(counts)), ("int64 array", np.array(counts, dtype=np.int64)), ("int32 array", np.array(counts, dtype=np.int32))]
+        if max(counts) < 2 ** 15:
+            kinds += [("int16 array", np.array(counts, dtype=np.int16)), ("uint16 array", np.array(counts, dtype=np.uint16))]
+        for kind, arg in kinds:
+            for fn, w in want.items():
+                got = float(getattr(stats, fn)(arg))
+                if not math.isclose(got, float(w), rel_tol=1e-9):
+                    bad.append(f"{fn}({kind} {counts}) = {got!r}, closed form {float(w)!r}")
+            for fn, w in want2.items():
+                got = float(getattr(stats, fn)(arg, m))
+                if not math.isclose(got, float(w), rel_tol=1e-9):
+                    bad.append(f"{fn}({kind} {counts}, {m}) = {got!r}, closed form {float(w)!r}")
+    return not bad, "[large-count probe] " + ("; ".join(bad[:6]) if bad else "ok")
+
+
 def conditions(tier):
     out = []
     nmax = 4
@@ -217,4 +246,7 @@ def conditions(tier):
                                          budget=200 if tier == "quick" else 1200, models=("np", "pd"),
                                          bounds=f"{fn} on a {ka} of {na} and a {kb} of {nb} symbolic labels"
                                                 + (", symbolic missing positions" if wm else "")))
+    from harness import common as hc
+    out.append(hc.probe_condition("C16/probe/chao/large-counts", "chao1 / var_chao1 / chao2 / var_chao2 on lists and int64 / int32 arrays with singleton counts of 60 000 ... 3 000 000: "
+                                  "closed forms to 1e-9 relative", _probe_large_counts))
     return out
